@@ -13,7 +13,7 @@ LEVEL = "model_checking"
 RULE = (
     "all write histories over the per-shape write alphabet (index kinds x value kinds, incl. None, empty, "
     "duplicates, nested containers and 6 inconsistent-shape writes) up to the stated depth, one case per "
-    "(shape, depth, first letter); plus one deterministic chain using the whole alphabet twice (>= 40 writes). "
+    "(shape, depth, first letter); for shapes (2,3) and (4,4) additionally depth 2 with every value scaled by 2^-70; plus one deterministic chain using the whole alphabet twice (>= 40 writes). "
     "A case is non-trivial if at least one of its histories contains an accepted write that changes the matrix"
 )
 ASSUMPTIONS = [
@@ -165,6 +165,11 @@ def cases(tier, seed):
             depth = 4 if shape in ((0, 0), (1, 1), (2, 3)) else 3
         for first in range(nl):
             out.append({"kind": "tree", "shape": list(shape), "depth": depth, "first": first})
+        if shape in ((2, 3), (4, 4)):
+            # the same alphabet with every value scaled by 2**-70 (about 8.5e-22: legitimate entries far below machine epsilon in
+            # absolute terms; a power of two keeps all sums exact)
+            for first in range(nl):
+                out.append({"kind": "tree", "shape": list(shape), "depth": 2, "first": first, "scale_exp": -70})
         # seed rotates the starting letter of the long chain (still the whole alphabet, twice)
         out.append({"kind": "chain", "shape": list(shape), "start": seed % nl, "rounds": max(2, -(-40 // nl))})
     return out
@@ -225,6 +230,26 @@ def _apply(coo, ref, make, fails, hist_names):
     return False
 
 
+def _scaled(make, sfac):
+    def m():
+        from cardillo.utility.coo_matrix import CooMatrix
+
+        key, value, expect = make()
+        if value is None:
+            pass
+        elif type(value) is CooMatrix:
+            v2 = CooMatrix(value.shape)
+            if value.shape[0] and value.shape[1]:
+                v2[:, :] = value.toarray() * sfac
+            value = v2
+        else:
+            value = value * sfac
+        if expect[0] in ("add", "held"):
+            expect = (expect[0], expect[1], expect[2], expect[3] * sfac)
+        return key, value, expect
+    return m
+
+
 _KIDS = {}
 
 
@@ -263,6 +288,8 @@ def check(case):
 
     shape = tuple(case["shape"])
     L = letters(shape)
+    if case.get("scale_exp"):
+        L = [(name + f"*2^{case['scale_exp']}", _scaled(make, 2.0 ** case["scale_exp"])) for name, make in L]
     fails = []
     evals = 0
     states = 0
